@@ -31,6 +31,8 @@ RULE = (
     "x data pair (9x4|9x3, 6x4|6x6, 5x6|5x4 i.e. p>n, plus 12x6|12x4 thorough) x spectrum x alpha in {0,.3,.5,1}^2 (CPCCA; fixed for the named classes) "
     "x PCA in {off, 2, all, mixed (thorough)} x n_modes in 1..rank x solver (auto/randomized: thorough, real family); rank counts n-1 sample dimensions "
     "(n//2 for an un-padded analytic signal); alpha<1 without PCA is enumerated only on fields with non-singular covariance (p <= that count). "
+    "x sample labels of Y in {same, disjoint shift, shift by one (overlapping), same labels reversed} - samples are paired by position, so the same "
+    "oracle applies unchanged (quick: real family, named classes + CPCCA at alpha (.3,.5),(1,0); thorough: every family, geometric spectrum, solver full). "
     "A case is non-trivial when the fit returned and the clauses (a) s>=0 descending, (b) S1^H S2/(N-1)=diag(s), (c) s/s_ref constant, "
     "(f) all reported correlations = numpy Pearson, in [-1,1], self=1 were evaluated on non-empty arrays; (d) MCA and (e) CCA clauses where alpha says so"
 )
@@ -45,7 +47,7 @@ ASSUMPTIONS = [
     "truncating PCA: squared-covariance fractions and correlation patterns are accepted against either the reduced or the unreduced field "
     "(the property does not say which one 'the cross-covariance' / 'X' is)",
 ]
-TALLY_KEYS = ("model", "pair", "pca", "solver", "spec")
+TALLY_KEYS = ("model", "pair", "pca", "solver", "spec", "labels")
 TRUSTED = ["statsmodels import shim (/verif/shims) so that xeofs.cross constructors can be called; correction=None never reaches it"]
 MAX_REFUSED_FRACTION = 0.05
 
@@ -53,6 +55,9 @@ ALPHAS = (0.0, 0.3, 0.5, 1.0)
 NAMED = {"MCA": (1.0, 1.0), "CCA": (0.0, 0.0), "RDA": (0.0, 1.0)}
 PAIRS_Q = [(9, 4, 3), (6, 4, 6), (5, 6, 4)]
 PAIRS_T = [(9, 4, 3), (6, 4, 6), (5, 6, 4), (12, 6, 4)]
+# sample coordinate labels of the Y field relative to X's: fit pairs samples by POSITION (lagged analysis X(t) vs Y(t+lag),
+# shifted dates), so nothing the property speaks of may depend on them
+LABELS = ("same", "disjoint", "overlap", "reversed")
 
 
 # ----------------------------------------------------------------------------- alphabet
@@ -105,6 +110,30 @@ def _zero_pc_whitened(case):
     return False
 
 
+def _labels_enumerated(tier, prefix, kind, alpha, spec, pca, solver, k, rank):
+    """where the three non-identical labellings of Y are added to the product."""
+    if spec != "geometric" or solver != "full" or isinstance(pca, list):
+        return False
+    if tier == "quick":  # real family: the three named classes, and CPCCA at two mixed whitening degrees
+        return prefix == "" and (kind != "CPCCA" or alpha in ([0.3, 0.5], [1.0, 0.0]))
+    # thorough: every family; all modes for the named classes, first and last for the alpha grid
+    return kind != "CPCCA" or k in (1, rank)
+
+
+def y_labels(t, labels):
+    t = np.asarray(t)
+    step = int(t[1] - t[0])
+    if labels == "same":
+        return t
+    if labels == "disjoint":
+        return t + step * len(t)
+    if labels == "overlap":
+        return t + step
+    if labels == "reversed":
+        return t[::-1].copy()
+    raise ValueError(labels)
+
+
 def cases(tier, seed):
     out = []
     pairs = PAIRS_Q if tier == "quick" else PAIRS_T
@@ -134,7 +163,9 @@ def cases(tier, seed):
                             solvers = ["full"]
                             if tier == "thorough" and spec == "geometric" and not cplx and prefix == "":
                                 solvers = ["full", "auto", "randomized"]
-                            for solver in solvers:
+                            for solver, labels in itertools.product(solvers, LABELS):
+                                if labels != "same" and not _labels_enumerated(tier, prefix, kind, alpha, spec, pca, solver, k, rank):
+                                    continue
                                 c = dict(
                                     model=prefix + kind,
                                     kind=kind,
@@ -147,11 +178,12 @@ def cases(tier, seed):
                                     pca=pca,
                                     n_modes=k,
                                     solver=solver,
+                                    labels=labels,
                                 )
                                 if prefix == "Hilbert":
                                     c["padding"] = padding
                                 out.append(c)
-    out.sort(key=lambda c: (c["family"] != "real", c["kind"] != "MCA", c["shape"][0] != 9, c["pca"] != "off"))
+    out.sort(key=lambda c: (c["family"] != "real", c["kind"] != "MCA", c["shape"][0] != 9, c["pca"] != "off", c["labels"] != "same"))
     return out
 
 
@@ -245,7 +277,7 @@ def build_input(case, seed):
     Y = D.make_matrix(n, p2, case["spec"], 1.0, case["cplx"], seed, salt=2)
     t = np.arange(n) * 2 + 1
     dx = xr.DataArray(X, dims=("time", "x"), coords={"time": t, "x": np.arange(p1) * 10}, name="left")
-    dy = xr.DataArray(Y, dims=("time", "y"), coords={"time": t, "y": np.arange(p2) * 5 + 100}, name="right")
+    dy = xr.DataArray(Y, dims=("time", "y"), coords={"time": y_labels(t, case.get("labels", "same")), "y": np.arange(p2) * 5 + 100}, name="right")
     return X, Y, dx, dy
 
 
@@ -305,11 +337,12 @@ def run_case(case, seed):
     is_cca = alpha == [0.0, 0.0]
     trunc = any(isinstance(p, int) for p in _pca_pair(case["pca"]))
     feats = dict(pca=case["pca"] != "off", cplx=bool(case["cplx"] or hilb))
+    lbl = {} if case.get("labels", "same") == "same" else {"labels": case["labels"]}  # only where it can matter: old signatures stay
     V = []
     done = []
 
     def bad(check, msg, _plain=False, **extra):
-        f = dict(extra) if _plain else dict(feats, **extra)
+        f = dict(extra, **lbl) if _plain else dict(feats, **extra, **lbl)
         V.append(viol(check, mname, msg, **f))
 
     m = make_model(case)
@@ -334,7 +367,7 @@ def run_case(case, seed):
     modes = np.arange(1, k + 1)
     lab = {"time": dx.time.values, "x": dx.x.values, "y": dy.y.values, "mode": modes}
     S1 = D.to_matrix(sc1, ["time"], ["mode"], lab)
-    S2 = D.to_matrix(sc2, ["time"], ["mode"], lab)
+    S2 = D.to_matrix(sc2, ["time"], ["mode"], dict(lab, time=dy.time.values))  # rows in Y's own (positional) sample order
     P1 = D.to_matrix(cp1, ["x"], ["mode"], lab)
     P2 = D.to_matrix(cp2, ["y"], ["mode"], lab)
     s = np.asarray(sv.sel(mode=modes).values)
@@ -446,7 +479,7 @@ def run_case(case, seed):
         violations=V,
         outcome="violation" if V else "ok",
         nontrivial=bool(S1.size and S2.size and "c" in done and "f" in done),
-        info=dict(ratio=ratio, N=N, alpha=alpha, clauses="".join(done), s1=float(sref[0])),
+        info=dict(ratio=ratio, N=N, alpha=alpha, clauses="".join(done), s1=float(sref[0]), labels=case.get("labels", "same")),
     )
 
 
@@ -494,6 +527,9 @@ def vacuity(outcomes, results, tier):
     missing = set("abcdef") - seen
     if missing:
         return "oracle clauses never evaluated: %s" % sorted(missing)
+    lab_seen = set((r.get("info") or {}).get("labels") for r in results if r.get("nontrivial"))
+    if not set(LABELS) <= lab_seen:
+        return "sample labellings of Y never compared: %s" % sorted(set(LABELS) - lab_seen)
     if len(alphas) < 16:
         return "only %d of the 16 whitening degrees were compared with the reference" % len(alphas)
     if n < 0.9 * len(results):
